@@ -310,6 +310,28 @@ fn run_enci(k: usize, p: &[u8]) -> String {
             Err(_) => return format!("{}!P", hex(&bytes)),
         }
     }
+    // the same bytes must come out when the encoder is driven by next() for the first j bytes and by a fold-based
+    // adaptor (for_each) for the rest, for every split point j
+    if p.len() <= 64 {
+        for j in 0..=bytes.len() {
+            let r = catch_unwind(|| {
+                let mut e = encode_streaming(p);
+                let mut v: Vec<u8> = Vec::new();
+                for _ in 0..j {
+                    if let Some(b) = e.next() {
+                        v.push(b);
+                    }
+                }
+                e.for_each(|b| v.push(b));
+                v
+            });
+            match r {
+                Ok(v) if v == bytes => {}
+                Ok(v) => return format!("{}!fold@{}:{}", hex(&bytes), j, hex(&v)),
+                Err(_) => return format!("{}!foldP@{}", hex(&bytes), j),
+            }
+        }
+    }
     let mut extra = Vec::new();
     for _ in 0..k {
         match catch_unwind(AssertUnwindSafe(|| it.next())) {
